@@ -1,6 +1,7 @@
 //! Global allocator with switchable fault/guard modes (C06, C10, C17).
 //!  MODE 0: system allocator.
-//!  MODE 1: the k-th `alloc_zeroed` request made while armed returns null (FAIL_AT = k, 0-based).
+//!  MODE 1: the k-th allocation request of any kind (`alloc`, `alloc_zeroed`, `realloc`) made while
+//!          armed returns null (FAIL_AT = k, 0-based); for `realloc` the old block stays valid.
 //!  MODE 2/3: every allocation made while armed is placed flush against a PROT_NONE page on
 //!            the left (2) or on the right (3); freed blocks are unmapped.
 use std::alloc::{GlobalAlloc, Layout, System};
@@ -23,6 +24,12 @@ fn lock() {
 }
 fn unlock() {
     LOCK.store(false, Ordering::Release);
+}
+
+/// counts one request; true when it is the one to refuse
+fn refuse() -> bool {
+    let n = ZEROED_COUNT.fetch_add(1, Ordering::Relaxed);
+    n == FAIL_AT.load(Ordering::Relaxed)
 }
 
 pub struct VAlloc;
@@ -89,14 +96,19 @@ unsafe impl GlobalAlloc for VAlloc {
         match MODE.load(Ordering::Relaxed) {
             2 => guarded_alloc(layout, false),
             3 => guarded_alloc(layout, true),
+            1 => {
+                if refuse() {
+                    return std::ptr::null_mut();
+                }
+                System.alloc(layout)
+            }
             _ => System.alloc(layout),
         }
     }
     unsafe fn alloc_zeroed(&self, layout: Layout) -> *mut u8 {
         match MODE.load(Ordering::Relaxed) {
             1 => {
-                let n = ZEROED_COUNT.fetch_add(1, Ordering::Relaxed);
-                if n == FAIL_AT.load(Ordering::Relaxed) {
+                if refuse() {
                     return std::ptr::null_mut();
                 }
                 System.alloc_zeroed(layout)
@@ -129,6 +141,9 @@ unsafe impl GlobalAlloc for VAlloc {
             }
             np
         } else {
+            if mode == 1 && refuse() {
+                return std::ptr::null_mut();
+            }
             System.realloc(ptr, layout, new_size)
         }
     }
